@@ -422,9 +422,10 @@ func c18Hpack(c *lab.Ctx) {
 		"changes (decoder allowed size + encoder limit, values {0,1,4096,65536} and neighbours) and/or the encoder calls " +
 		"SetMaxDynamicTableSize (several times in a row as well); lists of 0..200 fields with repeated names/fields, empty, long, " +
 		"Huffman-friendly/hostile/boundary values, arbitrary octets, sensitive flag, entries sized at the table boundary; blocks fed " +
-		"whole / bytewise / in random fragments. lib sessions: MOSN enc -> x/net dec, x/net enc -> MOSN dec (control x/net -> x/net " +
-		"must reproduce the input, else the case is a generator fault, not a verdict). raw sessions: RFC 7541 writer with its own " +
-		"table model -> both decoders. distinct = (mode, direction, list-size class, table-size class, pending update, kinds used, fragmenting)")
+		"whole / bytewise / in random fragments. lib sessions: MOSN enc -> x/net dec, x/net enc -> MOSN dec; the control pair x/net -> x/net " +
+		"must reproduce the input, else the session is not judged (x/net rejects its own two size updates at the start of a block while " +
+		"entries remain). raw sessions: RFC 7541 writer with its own table model -> both decoders; x/net disagreeing with the writer is a " +
+		"generator fault (run broken), never a verdict. huff: Huffman strings of each side decoded by the other. distinct = (mode, direction, list-size class, table-size class, pending update, kinds used, fragmenting)")
 	nLib := c.Pick(2500, 12000)
 	nRaw := c.Pick(2500, 12000)
 	nHuff := c.Pick(20000, 100000)
